@@ -118,6 +118,7 @@ def opParse : Rd String := do
       { regexValid := fun s => (lookup2 valid s).getD dflt
         fromChar := if strict then ColT.fromCharStrict else ColT.fromCharDefault }
     match parse pcfg text with
+    | .error (.panic _) => "panic"
     | .error e => s!"err {encPFail e}"
     | .ok recs => recs.foldl (fun acc r => acc ++ " | " ++ encRec r) s!"ok {recs.length}"
   let a := run false
